@@ -67,8 +67,9 @@ def skip_decision(ctx):
     rl = F.calls_to(lt, 'reload', depth=1)
     ok = bool(rl) and all(param_of(e.recv(), 'env') and param_of(
         e.control(), 'regenerating') for e in rl) and all(
-        any(pos and param_of(F.atoms(t, e.fn), 'regenerating')
-            for t, pos in F.guards_pol(e.call, e.fn)) for e in rl)
+        any(pos and param_of(F.atoms(t, f_, b_), 'regenerating')
+            for t, pos, f_, b_ in F.guard_leaves(e.call, e.fn))
+        for e in rl)
     ctx.ob(R, 'load_toolchain|reload-when-regenerating', ok, lt.node,
            'stale toolchain settings survive a regeneration')
     for fq in ('bfg9000.builtins.find:write_depfile',
